@@ -144,6 +144,14 @@ pub fn line_take(path: &str) -> Vec<u8> {
     v
 }
 
+/// discard everything the peer has written that the port has not read yet (line goes quiet)
+pub fn line_clear(path: &str) {
+    with(|w| {
+        let l = line(w, path);
+        let _ = l.to_port.drain_all();
+    })
+}
+
 pub fn line_total_from_port(path: &str) -> u64 {
     with(|w| line(w, path).from_port.total_written)
 }
